@@ -378,7 +378,7 @@ def c18_norm(lines):
     return out
 
 
-C18_SPEC_PREFIXES = ("TBN ", "ROOTS ", "PT ", "NST ", "OVL ", "SUB ", "CMP ", "VARS ")
+C18_SPEC_PREFIXES = ("TBN ", "DBN ", "ROOTS ", "PT ", "NST ", "OVL ", "SUB ", "CMP ", "VARS ")
 
 
 def c18_spec_view(lines):
@@ -467,6 +467,8 @@ def _c20_tree(lines):
 
 
 def c20_compare_model(il, ml, meta):
+    if meta.get("family") == "raw-text":
+        return True     # byte-level reading is outside the model; the implementation-side assertions apply
     return _c20_tree(il) == _c20_tree(ml)
 
 
@@ -480,7 +482,7 @@ def c20_compare_spec(il, sl, meta, exempt):
 
 
 PROPS["C20"] = {
-    "rule": "for every pool schema and both optional-member policies (absent members written as null / left out): the spec-conformant introspection result rendered from the schema; 8 structural mutations of it at random positions (remove a member, change a kind tag, wrong JSON type, duplicate a member, null a required member, extra unknown member, reorder members, strings with 1..4-byte characters / escapes / control characters in descriptions and deprecation reasons); hand-made edge cases; hand-made spec-conformant results (all 19 directive locations one by one and together, optional members present / null / absent, deprecations, default values, deep ofType chains, an interface without implementers) which must parse; the bundled real-world results (product; thorough: github, shopify). Implementation: parse_introspection_from_string, then parse_introspection through readers delivering 1, 2, 3, 4, 5, 7, 13, 4096 and all bytes per read (outcome must equal the string parse), readers failing at every byte offset for inputs up to 1500 bytes, at 1500 (inputs over 20000 bytes: 40) evenly spaced offsets beyond (must give Err, no panic), serialise + parse again (same structure). Compared: Ok/Err and the parsed structure as a JSON tree (serde_json::to_value) with the extracted model's decode_query/encode_query, and for pristine rendered results with the specification's abstract_normal pol s. distinct = distinct JSON texts; non-trivial = parses Ok and has at least 5 types, or is a mutated result that is rejected",
+    "rule": "for every pool schema and both optional-member policies (absent members written as null / left out): the spec-conformant introspection result rendered from the schema; 8 structural mutations of it at random positions (remove a member, change a kind tag, wrong JSON type, duplicate a member, null a required member, extra unknown member, reorder members, strings with 1..4-byte characters / escapes / control characters in descriptions and deprecation reasons); hand-made edge cases; hand-made spec-conformant results (all 19 directive locations one by one and together, optional members present / null / absent, deprecations, default values, deep ofType chains, an interface without implementers) which must parse; raw texts around a valid result (byte order mark, leading / trailing white space, trailing garbage, truncation, empty input) compared on the implementation only; the bundled real-world results (product; thorough: github, shopify). Implementation: parse_introspection_from_string, then parse_introspection through readers delivering 1, 2, 3, 4, 5, 7, 13, 4096 and all bytes per read (outcome must equal the string parse), readers failing at every byte offset for inputs up to 1500 bytes, at 1500 (inputs over 20000 bytes: 40) evenly spaced offsets beyond (must give Err, no panic), serialise + parse again (same structure). Compared: Ok/Err and the parsed structure as a JSON tree (serde_json::to_value) with the extracted model's decode_query/encode_query, and for pristine rendered results with the specification's abstract_normal pol s. distinct = distinct JSON texts; non-trivial = parses Ok and has at least 5 types, or is a mutated result that is rejected",
     "compare_model": c20_compare_model,
     "compare_spec": c20_compare_spec,
     "impl_oracle": no_bad_lines,
